@@ -62,29 +62,32 @@ Proof.
 Qed.
 End Path.
 
-(* built-in crystals: the index along the path is continuous and > 1, hence Snell's equation has a root in [0, theta_e] *)
+(* built-in crystals: the index along the path is continuous and > 1, hence Snell's equation has a root in [0, |theta_e|] *)
 Theorem snell_root_exists_builtin c l T theta phi p s e :
-  in_window c l -> temp_ok T -> 0 <= e <= PI / 2 ->
-  exists t, 0 <= t <= e /\ snell_cost_gen (builtin_index c l T theta phi p) s e t = 0.
+  in_window c l -> temp_ok T -> Rabs e <= PI / 2 ->
+  exists t, 0 <= t <= Rabs e /\ snell_cost_gen (builtin_index c l T theta phi p) s e t = 0.
 Proof.
   intros Hw HT He.
   destruct (principal_bounds c l T Hw HT) as ((Hx1 & _) & (Hy1 & _) & (Hz1 & _)).
   apply snell_root_exists; [exact He | |].
   - intros t _.
-    apply (continuity_pt_ext (fun u => index_model theta phi (nx_of c l T) (ny_of c l T) (nz_of c l T) (normalize (polar_dir (b_phi s) u)) p)).
+    apply (continuity_pt_ext (fun u => index_model theta phi (nx_of c l T) (ny_of c l T) (nz_of c l T) (normalize (polar_dir (b_phi s) (signum e * u))) p)).
     + intros u. unfold builtin_index. symmetry. apply crystal_index_is_fresnel; try assumption. apply unit_normalize_polar.
-    + apply index_path_continuous; lra.
+    + apply (continuity_pt_comp (fun u => signum e * u)
+               (fun v => index_model theta phi (nx_of c l T) (ny_of c l T) (nz_of c l T) (normalize (polar_dir (b_phi s) v)) p) t).
+      * apply continuity_pt_mult; [apply continuity_pt_const; intros x y; reflexivity | apply derivable_continuous_pt, derivable_pt_id].
+      * apply index_path_continuous; lra.
   - unfold builtin_index.
     pose proof (crystal_index_bounds c l T theta phi _ p Hw HT (unit_normalize_polar (b_phi s) e)). lra.
 Qed.
 
-(* no oracle: the model of nelder_mead_1d returns an angle in [0, pi/2] whose residual is at most (n(theta_e) - 1) sin theta_e *)
+(* no oracle: the model of nelder_mead_1d returns an angle in [0, pi/2] whose residual is at most (n(theta_e) - 1) sin|theta_e| *)
 Theorem snell_nm_builtin sd fuel c l T theta phi p s e :
-  in_window c l -> temp_ok T -> 0 <= e <= PI / 2 ->
+  in_window c l -> temp_ok T -> Rabs e <= PI / 2 ->
   let n_along := builtin_index c l T theta phi p in
   let star := theta_star (nm_real sd fuel) n_along s e in
   0 <= star <= PI / 2 /\
-  snell_cost_gen n_along s e star <= (n_along (normalize (polar_dir (b_phi s) e)) - 1) * sin e.
+  snell_cost_gen n_along s e star <= (n_along (normalize (polar_dir (b_phi s) e)) - 1) * sin (Rabs e).
 Proof.
   intros Hw HT He n_along star.
   destruct (snell_nm_bounds_and_residual sd fuel n_along s e He) as [Hb Hr].
